@@ -158,6 +158,60 @@ func init() {
 			}
 		}
 
+		// ---- 1b. (thorough) exhaustive small scope: every history of at most 3 single puts over a 4-block
+		// collision alphabet x 8 option rows x {blockstore, storage}
+		if c.Thorough {
+			r := c.R.Fork()
+			b1 := genBlock(r, genOpts{maxData: 30})
+			for b1.Cid.Version() == 0 {
+				b1 = genBlock(r, genOpts{maxData: 30})
+			}
+			b2 := Blk{cid.NewCidV1(0x71, b1.Cid.Hash()), b1.Data} // same multihash, other codec
+			idd := r.Bytes(5)
+			b3 := Blk{mkCid(1, 0x55, 0x00, -1, idd), idd} // identity
+			b4 := genBlock(r, genOpts{maxData: 200})
+			alpha := []Blk{b1, b2, b3, b4}
+			rows := []func(o *wOpts){
+				func(o *wOpts) {},
+				func(o *wOpts) { o.dups = true },
+				func(o *wOpts) { o.whole = true },
+				func(o *wOpts) { o.storeID = true },
+				func(o *wOpts) { o.v1 = true },
+				func(o *wOpts) { o.dpad, o.ipad, o.codec = 1, 1, 0x0400 },
+				func(o *wOpts) { o.storeID, o.dups = true, true },
+				func(o *wOpts) { o.maxCid = uint64(b1.Cid.ByteLen()) },
+			}
+			var hist [][]int
+			var rec func(pre []int, left int)
+			rec = func(pre []int, left int) {
+				hist = append(hist, append([]int(nil), pre...))
+				if left == 0 {
+					return
+				}
+				for i := range alpha {
+					rec(append(pre, i), left-1)
+				}
+			}
+			rec(nil, 3)
+			for _, row := range rows {
+				for _, kind := range []uint64{0, 1} {
+					for _, hi := range hist {
+						o := defaultWOpts
+						row(&o)
+						var h [][]Blk
+						for _, i := range hi {
+							h = append(h, []Blk{alpha[i]})
+						}
+						roots := []cid.Cid{b1.Cid}
+						in := finalInput(kind, o, roots, h, nil)
+						obs := runFinalImpl(c, kind, o, roots, h)
+						c.Emit("final", in, obs, distinctBlks(h) >= 2)
+						c.Count("exhaustive:histories<=3-over-4-blocks")
+					}
+				}
+			}
+		}
+
 		// ---- 2. car filter
 		nFlt := 25 * c.Scale
 		for i := 0; i < nFlt; i++ {
